@@ -36,6 +36,9 @@ type SimAPI struct {
 	// (DeliverOneMirror).  Nothing is mirrored unless MirrorOn says so.
 	Mirror   map[string][]Event
 	MirrorOn map[string]bool
+	// Blocked[resource]: the watch of that resource is interrupted; DeliverOne delivers nothing
+	// until the engine relists (DropPendingOf + FakeInformer.Relist) and clears the flag.
+	Blocked map[string]bool
 	// Fault decides the fate of one call; nil or "" = ok.
 	Fault func(c Call) string
 	// Admit, when set, is invoked on create/update of jobs and jobconfigs (webhooks).
@@ -87,7 +90,7 @@ const (
 
 func NewSimAPI(c clock.PassiveClock) *SimAPI {
 	return &SimAPI{Clock: c, objs: map[string]map[string]runtime.Object{"jobs": {}, "jobconfigs": {}, "pods": {}},
-		Pending: map[string][]Event{}, Mirror: map[string][]Event{}, MirrorOn: map[string]bool{}}
+		Pending: map[string][]Event{}, Mirror: map[string][]Event{}, MirrorOn: map[string]bool{}, Blocked: map[string]bool{}}
 }
 
 // Install hooks the simulation into the fake clientsets of ctx.
@@ -475,7 +478,7 @@ func splitKey(key string) (string, string, bool) {
 // queues the notification for every handler.  Returns false if nothing was pending.
 func (a *SimAPI) DeliverOne(resource string, inf *FakeInformer) bool {
 	q := a.Pending[resource]
-	if len(q) == 0 {
+	if len(q) == 0 || a.Blocked[resource] {
 		return false
 	}
 	ev := q[0]
@@ -524,3 +527,15 @@ func (a *SimAPI) DeliverAll(inf *Informers) int {
 
 // DropPending forgets undelivered events (process restart: the new process relists).
 func (a *SimAPI) DropPending() { a.Pending = map[string][]Event{} }
+
+// DropPendingOf forgets the undelivered events of one resource (its informer relists).
+func (a *SimAPI) DropPendingOf(resource string) { delete(a.Pending, resource) }
+
+// Snapshot returns deep copies of the current objects of a resource, in key order.
+func (a *SimAPI) Snapshot(resource string) []interface{} {
+	var out []interface{}
+	for _, k := range a.Keys(resource) {
+		out = append(out, a.objs[resource][k].DeepCopyObject())
+	}
+	return out
+}
